@@ -298,7 +298,7 @@ pub fn run(ctx: &Ctx) -> i32 {
     // which indices to run
     let smallest = |fmt: Fmt| -> usize { st.files.iter().enumerate().filter(|(_, f)| f.fmt == fmt).min_by_key(|(_, f)| f.lines.len()).map(|(i, _)| i).unwrap() };
     let core_files: Vec<usize> = vec![smallest(Fmt::Ctehexml), smallest(Fmt::Cte), smallest(Fmt::Kyg), smallest(Fmt::Tbl)];
-    let stride = 499u64;
+    let stride = 1499u64;
     let mut idxs: Vec<u64> = vec![];
     match ctx.tier {
         Tier::Thorough => idxs = (0..total).collect(),
